@@ -6,7 +6,7 @@ from __future__ import annotations
 
 from exo import proc, config, DRAM
 from exo.libs.externs import relu, select, fmaxf, sin, sqrt
-from exo.libs.memories import DRAM_STACK, DRAM_STATIC, MDRAM
+from exo.libs.memories import DRAM_STACK, DRAM_STATIC
 
 
 @config
@@ -100,7 +100,7 @@ def dl_mems(n: size, x: f32[n], y: f32[n]):
     assert n <= 8
     t1: f32[8] @ DRAM_STACK
     t2: f32[8] @ DRAM_STATIC
-    t3: f32[n] @ MDRAM
+    t3: f32[n] @ DRAM_STACK
     t4: f32[n] @ DRAM
     for i in seq(0, n):
         t1[i] = x[i]
